@@ -244,11 +244,18 @@ class C16(Spec):
     pid = "C16"
     lean_targets = ("Earverif.Props.C16", "c16driver")
     props_module = "Earverif.Props.C16"
-    theorems = tuple(
+    theorems = ("Earverif.Ieee.ofBits_toBits", "Earverif.Ieee.toBits_injective", "Earverif.Ieee.rn53_le_int",
+                "Earverif.Ieee.rn53_ge_int", "Earverif.Ieee.rn53_err_unit") + tuple(
         "Earverif.Pcm." + t
         for t in (
             "C16_roundtrip",
             "C16_roundtrip_bytes",
+            "C16_roundtrip_bytes_some",
+            "C16_copy_through_tools",
+            "encode_isCode",
+            "encode_within_step",
+            "encode_clipped",
+            "decode_encode_representable",
             "decode_range",
             "encode_clips",
             "rn53_error",
@@ -550,6 +557,67 @@ class C16(Spec):
                 else:
                     ctx.validated()
 
+    def _corr_bits(self, ctx, drv, n):
+        """The bit-pattern conversion of Model/Ieee.lean (the carrier of every bit-for-bit comparison): the exact value
+        `ofBits` assigns to a 64-bit pattern against Python's own reading of the pattern (Fraction of the float), and the
+        pattern `toBits` prints for that value (normal numbers and zero only; theorem ofBits_toBits)."""
+        rng = ctx.rng
+        pats = [0, 1 << 63, 1, (1 << 52) - 1, 1 << 52, (1 << 52) + 1, 0x3FF0000000000000, 0xBFF0000000000000,
+                0x7FEFFFFFFFFFFFFF, 0xFFEFFFFFFFFFFFFF, 0x7FF0000000000000, 0xFFF0000000000000, 0x7FF8000000000000,
+                0x7FF0000000000001, 0x3FD5555555555555, 0x0010000000000000, 0x000FFFFFFFFFFFFF, 0x8000000000000001]
+        while len(pats) < n:
+            k = rng.random()
+            if k < 0.6:
+                pats.append(rng.getrandbits(64))
+            elif k < 0.8:   # around 1 / the PCM range
+                pats.append((rng.getrandbits(1) << 63) | (rng.randint(1023 - 40, 1023 + 2) << 52) | rng.getrandbits(52))
+            else:           # subnormal / extreme exponents
+                pats.append((rng.getrandbits(1) << 63) | (rng.choice([0, 0, 1, 2046, 2047]) << 52) | rng.getrandbits(52))
+        outs = " ".join(drv.run(["V " + " ".join("%016x" % w for w in pats[i:i + 512]) for i in range(0, len(pats), 512)])).split()
+        for w, mo in zip(pats, outs):
+            ex, fr = (w >> 52) & 0x7FF, w & ((1 << 52) - 1)
+            x = struct.unpack(">d", struct.pack(">Q", w))[0]
+            if ex == 0x7FF and fr:
+                want, cls = "nan", "nan"
+            else:
+                if ex == 0x7FF:
+                    v, cls = Fraction((-1) ** (w >> 63) * 2 ** 1024), "inf"      # +-inf enter the model as +-2^1024
+                else:
+                    v, cls = Fraction(x), ("zero" if x == 0 else "subnormal" if ex == 0 else "normal")
+                bits = "%016x" % w if cls == "normal" else "0000000000000000" if cls == "zero" else "not-a-double"
+                want = "%d/%d:%s" % (v.numerator, v.denominator, bits)
+            ctx.count("corr:bit-pattern:" + cls)
+            ctx.case(("V", w), True, sample={"pattern": "%016x" % w, "model": mo[:80]} if w % 97 == 0 else None)
+            if mo != want:
+                ctx.disagree("ofBits/toBits vs the float64 layout", {"pattern": "%016x" % w}, mo[:200], want[:200])
+            else:
+                ctx.validated()
+
+    def _corr_readback(self, ctx, drv, b, n_rand):
+        """decode(encode(x)) for arbitrary doubles (what C09 says a written sample reads back as), model vs real code"""
+        u = real()
+        for name, xs in self.doubles(ctx, b, n_rand).items():
+            arr = np.array(xs, dtype=np.float64)
+            lines = ["W %d %s" % (b, " ".join(hex_of_double(x) for x in arr[i:i + 2048])) for i in range(0, len(arr), 2048)]
+            outs = " ".join(drv.run(lines)).split()
+            try:
+                with np.errstate(all="ignore"):
+                    back = np.asarray(u.decode_pcm_samples(bytes(u.encode_pcm_samples(arr, b)), b), dtype=np.float64)
+                impl = ["%016x" % int(w) for w in bits_of(back)]
+            except Exception as e:
+                ctx.disagree("real encode->decode raised (%s)" % name, {"bitdepth": b}, outs[:3], repr(e))
+                continue
+            ctx.count("corr:readback-double:%s:b=%d" % (name, b), len(arr))
+            ctx.cov["evaluations"] += len(arr) - 1
+            ctx.case(("W", b, name, len(arr)), True)
+            bad = [i for i in range(len(arr)) if i >= len(outs) or outs[i] != impl[i]]
+            if bad or len(outs) != len(arr):
+                i = bad[0] if bad else 0
+                ctx.disagree("decode(encode(x)) of a double (%s) [%d of %d differ]" % (name, len(bad), len(arr)),
+                             {"bitdepth": b, "double_bits": hex_of_double(arr[i])}, outs[i] if i < len(outs) else None, impl[i])
+            else:
+                ctx.validated(len(arr))
+
     def correspond(self, ctx):
         drv = Driver("c16driver", "Earverif.Driver.C16")
         q = ctx.quick
@@ -571,6 +639,8 @@ class C16(Spec):
             self._corr_windows(ctx, drv, 32, windows(ctx.rng, 32, 256, 16384), 16384, 16)
         for b in DEPTHS:
             self._corr_doubles(ctx, drv, b, 400 if q else 6000)
+            self._corr_readback(ctx, drv, b, 100 if q else 2000)
+        self._corr_bits(ctx, drv, 1500 if q else 20000)
         self._corr_bytes(ctx, drv, 300 if q else 4000)
 
     # ------------------------------------------------------------------ search (real code only)
@@ -629,6 +699,60 @@ class C16(Spec):
             if list(got) != [M, -M, 0, 0]:
                 ctx.hit("full scale / zero not encoded exactly", {"bitdepth": b, "samples": [1.0, -1.0, 0.0, -0.0]},
                         {"encoded": [x if isinstance(x, str) else int(x) for x in got], "expected": [M, -M, 0, 0]}, ["clip"])
+
+    def _within_step(self, ctx, deep):
+        """C09's clause on samples, on the real code alone, in exact arithmetic: a float in [-1, 1] comes back within
+        one quantisation step (+ 2^-54 for the final rounded division, see encode_within_step), a float outside comes
+        back as exactly +-1, a representable value (decoded code other than the most negative) comes back exactly."""
+        u = real()
+        rng = ctx.rng
+        inf = float("inf")
+        for b in DEPTHS:
+            M = scale(b)
+            bound = Fraction(1, M) + Fraction(1, 2 ** 54)
+            xs = [0.0, 1.0, -1.0, 0.5, -0.5, 1.0 / M, -1.0 / M, 0.5 / M, 1.5 / M, math.nextafter(1.0, 0.0), math.nextafter(-1.0, 0.0), 5e-324]
+            for _ in range(3000 if deep else 400):
+                k = rng.random()
+                if k < 0.4:
+                    xs.append(rng.uniform(-1, 1))
+                elif k < 0.7:   # just below / above a code boundary: where truncation matters most
+                    c = rng.randint(-M, M)
+                    y = c / M
+                    for _ in range(rng.randint(0, 2)):
+                        y = math.nextafter(y, rng.choice([inf, -inf]))
+                    xs.append(max(-1.0, min(1.0, y)))
+                elif k < 0.85:
+                    xs.append(rng.choice((1, -1)) * rng.random() * 2.0 ** -rng.randint(0, 40))
+                else:
+                    xs.append(rng.choice((1, -1)) * (1 + rng.random() * 10 ** rng.randint(-15, 30)))
+            arr = np.array(xs, dtype=np.float64)
+            try:
+                with np.errstate(all="ignore"):
+                    back = np.asarray(u.decode_pcm_samples(bytes(u.encode_pcm_samples(arr, b)), b), dtype=np.float64)
+            except Exception as e:
+                ctx.hit("exception encoding/decoding float samples", {"bitdepth": b}, {"exception": repr(e)}, ["within-step"])
+                continue
+            ctx.count("search:within-step:b=%d" % b, len(arr))
+            ctx.cov["evaluations"] += len(arr) - 1
+            ctx.case(("step", b, len(arr)), True)
+            for x, y in zip(arr, back):
+                x, y = float(x), float(y)
+                if abs(x) > 1:
+                    ok, what = (y == (1.0 if x > 0 else -1.0)), "sample outside [-1, 1] does not read back as full scale"
+                else:
+                    ok, what = abs(Fraction(y) - Fraction(x)) < bound, "sample reads back more than one quantisation step away"
+                if not ok:
+                    ctx.hit(what, {"bitdepth": b, "sample": repr(x), "sample_bits": hex_of_double(x)},
+                            {"read_back": repr(y), "step": 1.0 / M}, ["within-step"])
+                    break
+            # representable values exactly
+            codes = np.array([rng.randint(-M, M) for _ in range(500)], dtype=np.int64)
+            dec = np.asarray(u.decode_pcm_samples(codes_to_bytes(codes, b), b))
+            back = np.asarray(u.decode_pcm_samples(bytes(u.encode_pcm_samples(dec, b)), b))
+            if not np.array_equal(dec, back):
+                i = int(np.nonzero(dec != back)[0][0])
+                ctx.hit("representable sample does not read back exactly", {"bitdepth": b, "code": int(codes[i])},
+                        {"decoded": hex_of_double(dec[i]), "read_back": hex_of_double(back[i])}, ["within-step"])
 
     def _interleaving(self, ctx, deep):
         """Multi-channel: bytes -> decode -> deinterleave -> interleave -> encode -> canonical bytes, and
@@ -759,6 +883,7 @@ class C16(Spec):
             for t in tasks:
                 self._report_block(ctx, roundtrip_block(t))
         self._clipping(ctx, deep)
+        self._within_step(ctx, deep)
         self._interleaving(ctx, deep)
 
 
@@ -769,12 +894,23 @@ REGISTRY = dict(
     "encode_pcm_samples(decode_pcm_samples(.)) returns the code itself (the most negative code returns the negated maximum), "
     "from an error analysis of an executable IEEE-754 binary64 round-to-nearest-even model over exact rationals "
     "(rn53_error, rn53_snap, div_mul_exact; only the codes 0, +-2^f, +-M and -2^(b-1) are closed by kernel evaluation); "
-    "C16_roundtrip_bytes lifts it to byte strings, decode_range / encode_clips / pack_unpack / interleave_deinterleave cover the "
-    "rest of the statement. The model is tied to the code on every run bit for bit (all 2^16 codes, boundary + stratified + block "
-    "checksums for 24/32 bit, all 2^24 in the thorough tier, arbitrary doubles, byte strings, frame arrays) and the property "
-    "itself is evaluated on the real numpy code for all 2^16 and 2^24 codes (all 2^32 in the thorough tier).",
+    "C16_roundtrip_bytes / C16_roundtrip_bytes_some lift it to byte strings (every stage returns a value -- no exception -- for "
+    "every byte string holding whole samples, the most negative code included; output length = input length), "
+    "C16_copy_through_tools composes the four tools: decode -> deinterleave -> interleave -> encode on whole frames of any "
+    "channel count is the identity on bytes except most-negative-code -> negated maximum; decode_range / encode_clips / "
+    "pack_unpack / interleave_deinterleave cover the rest of the statement. For ARBITRARY samples (used by C09): encode_isCode "
+    "(the encoder's output is always a code of the depth, never the most negative one), encode_within_step (|x| <= 1: "
+    "|decode(encode x) - x| < 1/(2^(b-1)-1) + 2^-54), encode_clipped (|x| > 1: decode(encode x) = +-1), "
+    "decode_encode_representable. ofBits_toBits / toBits_injective: the 64-bit pattern the model prints for a value denotes "
+    "exactly that value (the carrier of the bit-for-bit tie). The model is tied to the code on every run bit for bit (all 2^16 "
+    "codes, boundary + stratified + block checksums for 24/32 bit, all 2^24 in the thorough tier, arbitrary doubles through "
+    "encode and through encode->decode, the bit-pattern conversion itself against Python's reading of the pattern, byte "
+    "strings, frame arrays) and the property itself is evaluated on the real numpy code for all 2^16 and 2^24 codes (all 2^32 "
+    "in the thorough tier), plus clipping, the one-step bound in exact arithmetic and multi-channel copies.",
     note="Trusted: Lean kernel; that numpy float64 / and * are IEEE RN-even and astype truncates (checked bit for bit on every run "
-    "against the rn53 model); hand transliteration of utils.py. NaN and the sign of zero are outside the model.",
+    "against the rn53 model); hand transliteration of utils.py. NaN and the sign of zero are outside the model; toBits prints "
+    "normal numbers and zero only (every value the PCM code produces is one). The bound 'within one quantisation step' holds "
+    "as < step + 2^-54, not <= step: the decoded value is itself a rounded quotient.",
     technique="Lean 4 proof (floating-point error analysis over exact rationals + finite kernel evaluation) + bit-exact differential "
     "correspondence + exhaustive vectorised search on the real code",
     design_ref="DESIGN.md section 4, C16",
